@@ -26,12 +26,15 @@
        instructions through DecodeInstr          instrGotoTable / instrWriteMetadata / instrActions (any list of actions)
     §5 messages through Parse                    parse_header_only (6 header-only types); switchConfig_roundtrip (2 types);
                                                  flowMod_roundtrip (Match + instructions + actions nested); flowRemoved_roundtrip;
-                                                 helloElem_roundtrip, hello_roundtrip (any number of elements), hello_default_roundtrip
+                                                 helloElem_roundtrip, hello_roundtrip (any number of elements), hello_default_roundtrip;
+                                                 errorMsg_roundtrip; portStatus_roundtrip (+ phyPort_roundtrip); bundleProp_roundtrip (element)
 
   Where the round trip is FALSE in the model (= the Go code violates C05), the concrete counterexample is proved:
     actionMplsTtl_counterexample / actionNwTtl_counterexample / instrMeter_counterexample
                                              TTL / MeterId neither written nor read (stub types without encoders of their own);
                                              InstrMeter followed by anything decodes to the all-zero instruction  (known D42)
+    switchFeatures_dpid_counterexample       SwitchFeatures.MarshalBinary never writes the DPID (Len counts it, the decoder reads
+                                             it at offset 8): every field after the header comes back shifted      (NEW)
     hello_unpadded_element_counterexample    a hello element whose Length is not a multiple of 8 followed by another element:
                                              the encoder does not pad, the decoder advances by the rounded Length — the
                                              following element is lost without an error (condition `PadOK` of hello_roundtrip)
@@ -54,6 +57,7 @@ import OFV.Lemmas.RTSwitchConfig
 import OFV.Lemmas.RTHello
 import OFV.Lemmas.RTRegistry
 import OFV.Lemmas.RTFlowRemoved
+import OFV.Lemmas.RTMsgMore
 namespace OFV.Props.C05
 open OFV OFV.Go OFV.Model OFV.RT
 
@@ -531,6 +535,80 @@ theorem switchConfig_roundtrip (ver ty xid fl ms : Nat) (hver : ver < 256)
     ∀ (depth : Nat) (data : Slice) (tail : Bytes), data.WF → data.bytes = bs ++ tail →
       parse depth data = .ok (switchConfigV ver ty 12 xid fl ms) :=
   switchConfig_rt ver ty xid fl ms hver hty hxid hfl hms
+
+/-- ErrorMsg through Parse (error type other than ET_EXPERIMENTER 0xffff; data `d` with 12 + |d| < 2^16).  The encoder
+    leaves Header.Length as it is.  The decoder takes EVERYTHING behind the 12 fixed bytes as the error data: parsing
+    `bs ++ tail` yields the message with data `d ++ tail` — the value itself exactly when nothing follows (`tail = []`). -/
+theorem errorMsg_roundtrip (ver ln xid t c : Nat) (d : Bytes) (hver : ver < 256) (hln : ln < 65536) (hxid : xid < 4294967296)
+    (ht : t < 65536) (hte : t ≠ Gen.openflow13.ET_EXPERIMENTER) (hc : c < 65536) (hd : 12 + d.length < 65536) :
+    let v := errorMsgV ver ln xid t c d
+    let bs := [n8 ver, n8 Gen.openflow13.Type_Error] ++ be16 (n16 ln) ++ be32 (n32 xid) ++ be16 (n16 t) ++ be16 (n16 c) ++ d
+    ErrorMsg.marshalM v = .ok (bs, v) ∧
+    (∀ (depth : Nat) (data : Slice) (tail : Bytes), data.WF → data.bytes = bs ++ tail →
+      parse depth data = .ok (errorMsgV ver ln xid t c (d ++ tail))) ∧
+    ∀ (depth : Nat) (data : Slice), data.WF → data.bytes = bs → parse depth data = .ok v := by
+  intro v bs
+  obtain ⟨h1, h2⟩ := errorMsg_rt ver ln xid t c d hver hln hxid ht hte hc hd
+  refine ⟨h1, h2, fun depth data hdw hb => ?_⟩
+  have := h2 depth data [] hdw (by rw [hb, List.append_nil])
+  rw [List.append_nil] at this
+  exact this
+
+/-- PhyPort (the 64-byte port description) in decoded form `phyPortV` (unexported pads nil, 6-byte HWAddr, 16-byte Name),
+    decoded into NewPhyPort(), followed by anything -/
+theorem phyPort_roundtrip (no : Nat) (hw name : Bytes) (cfg st cur adv sup peer cs ms : Nat)
+    (hno : no < 4294967296) (hhw : hw.length = 6) (hname : name.length = 16) (hcfg : cfg < 4294967296)
+    (hst : st < 4294967296) (hcur : cur < 4294967296) (hadv : adv < 4294967296) (hsup : sup < 4294967296)
+    (hpeer : peer < 4294967296) (hcs : cs < 4294967296) (hms : ms < 4294967296) :
+    let v := phyPortV no hw name cfg st cur adv sup peer cs ms
+    RoundTrip PhyPort.marshalM (PhyPort.unmarshal PhyPort.new) v v (phyPortBytes no hw name cfg st cur adv sup peer cs ms) := by
+  obtain ⟨_, h1, _, h3⟩ := phyPort_rt no hw name cfg st cur adv sup peer cs ms hno hhw hname hcfg hst hcur hadv hsup hpeer hcs hms
+  exact ⟨h1, h1, h3⟩
+
+/-- PortStatus through Parse (decoded into NewPortStatus(): 7 pad bytes, Desc = NewPhyPort()).  `MarshalBinary` stores 80 in
+    Header.Length; Parse of the 80 bytes followed by anything returns the value with that Length. -/
+theorem portStatus_roundtrip (ver xid r no : Nat) (hw name : Bytes) (cfg st cur adv sup peer cs ms : Nat)
+    (hver : ver < 256) (hxid : xid < 4294967296) (hr : r < 256)
+    (hno : no < 4294967296) (hhw : hw.length = 6) (hname : name.length = 16) (hcfg : cfg < 4294967296)
+    (hst : st < 4294967296) (hcur : cur < 4294967296) (hadv : adv < 4294967296) (hsup : sup < 4294967296)
+    (hpeer : peer < 4294967296) (hcs : cs < 4294967296) (hms : ms < 4294967296) :
+    let d := phyPortV no hw name cfg st cur adv sup peer cs ms
+    let bs := [n8 ver, n8 Gen.openflow13.Type_PortStatus] ++ be16 (n16 80) ++ be32 (n32 xid) ++ ([n8 r] ++ zeros 7)
+      ++ phyPortBytes no hw name cfg st cur adv sup peer cs ms
+    (∀ ln0, PortStatus.marshalM (portStatusV ver ln0 xid r d) = .ok (bs, portStatusV ver 80 xid r d)) ∧
+    ∀ (depth : Nat) (data : Slice) (tail : Bytes), data.WF → data.bytes = bs ++ tail →
+      parse depth data = .ok (portStatusV ver 80 xid r d) :=
+  portStatus_rt ver xid r no hw name cfg st cur adv sup peer cs ms hver hxid hr hno hhw hname hcfg hst hcur hadv hsup hpeer
+    hcs hms
+
+/-- BundlePropertyExperimenter (an element of a property list: followed by anything): 12-byte header whose length field is
+    12 + |payload| (without padding; `MarshalBinary` stores it in the receiver, whatever `ln0` was there), the payload,
+    zero padding to a multiple of 8; Len() = padded size. -/
+theorem bundleProp_roundtrip (t ei et : Nat) (d : Bytes) (ht : t < 65536) (hei : ei < 4294967296) (het : et < 4294967296)
+    (hd : 12 + d.length + 7 < 65536) (recv : V) :
+    let v := bundlePropV t (12 + d.length) ei et d
+    let bs := be16 (n16 t) ++ be16 (n16 (12 + d.length)) ++ be32 (n32 ei) ++ be32 (n32 et) ++ d ++
+      zeros ((12 + d.length + 7) / 8 * 8 - (12 + d.length))
+    RoundTrip BundlePropertyExperimenter.marshalM (BundlePropertyExperimenter.unmarshal recv) v v bs ∧
+    (∀ ln0, BundlePropertyExperimenter.marshalM (bundlePropV t ln0 ei et d) = .ok (bs, v)) ∧
+    BundlePropertyExperimenter.lenM v = .ok (UInt16.ofNat bs.length, v) ∧ bs.length % 8 = 0 := by
+  intro v bs
+  obtain ⟨h1, h2, h3, h4⟩ := bundleProp_rt t ei et d ht hei het hd
+  exact ⟨⟨h1 _, h1 _, fun data tail hdw hb => h4 recv data tail hdw hb⟩, h1, h2, h3⟩
+
+/-- COUNTEREXAMPLE (new).  `SwitchFeatures.MarshalBinary` never writes the datapath id: `Len()` counts the 8 DPID bytes, the
+    encoder goes from the header straight to Buffers (the 8 bytes are left over as zeros at the END), while
+    `UnmarshalBinary` reads the DPID at offset 8.  A features reply with DPID 01..08, 256 buffers, 254 tables, capabilities
+    0x4f comes back (through Parse) with DPID 00 00 01 00 fe 00 00 00, Buffers 79, NumTables 0, Capabilities 0. -/
+theorem switchFeatures_dpid_counterexample :
+    let hdr := V.obj "Header" [.num 4, .num 6, .num 32, .num 7]
+    let v := V.obj "SwitchFeatures" [hdr, .bytes [1, 2, 3, 4, 5, 6, 7, 8], .num 256, .num 254, .num 0, .bytes (zeros 2),
+      .num 79, .num 0, .list []]
+    let bs : Bytes := [4, 6, 0, 32, 0, 0, 0, 7,  0, 0, 1, 0, 254, 0, 0, 0, 0, 0, 0, 79, 0, 0, 0, 0,  0, 0, 0, 0, 0, 0, 0, 0]
+    SwitchFeatures.marshalM v = .ok (bs, v) ∧
+    parse 1 (Slice.exact bs) = .ok (.obj "SwitchFeatures" [hdr, .bytes [0, 0, 1, 0, 254, 0, 0, 0], .num 79, .num 0, .num 0,
+      .bytes (zeros 2), .num 0, .num 0, .list []]) :=
+  ⟨rfl, rfl⟩
 
 /-- One hello element, followed by anything (the next element, …): `HelloElemVersionBitmap.UnmarshalBinary` reads the bitmaps
     up to the element's own Length (D20 bitmap part, fixed).  Element = type 1, Length = 4 + 4·#bitmaps (`helloElemV ws`),
